@@ -4,6 +4,7 @@ import (
 	"fmt"
 	"go/ast"
 	"go/token"
+	"go/types"
 	"runtime"
 	"sort"
 	"strings"
@@ -81,8 +82,11 @@ type MethodFacts struct {
 	Allocs  []wire.Alloc
 	Lim     wire.Limiter
 	Returns []string
-	Decl    *ast.FuncDecl
-	PtrRecv bool
+	// InvalidAt: the method mentions an expression the type checker gave no
+	// type (the emitted file has type errors)
+	InvalidAt token.Pos
+	Decl      *ast.FuncDecl
+	PtrRecv   bool
 }
 
 // RecFacts is one record under one option set.
@@ -324,6 +328,21 @@ func (ga *GenAnalysis) readRecord(gf *genfacts.GenFile, spec genfacts.RecordSpec
 		}
 		mf.Items = wire.Normalize(mf.Items)
 		mf.Fails, mf.Allocs, mf.Lim, mf.Returns = l.Fails, l.Allocs, l.Lim, l.Returns
+		// where the emitted file does not type-check, a method that mentions a
+		// value the checker could give no type is read without the types the
+		// reader relies on (enum conversions, fixed sizes): not understood
+		if len(gf.TypeErrs) > 0 && gf.Info != nil {
+			ast.Inspect(fd, func(n ast.Node) bool {
+				if e, ok := n.(ast.Expr); ok && mf.InvalidAt == token.NoPos {
+					if tv, has := gf.Info.Types[e]; has && tv.Type != nil {
+						if b, isB := tv.Type.Underlying().(*types.Basic); isB && b.Kind() == types.Invalid {
+							mf.InvalidAt = e.Pos()
+						}
+					}
+				}
+				return mf.InvalidAt == token.NoPos
+			})
+		}
 	}
 	return rf
 }
